@@ -234,13 +234,26 @@ class SquashArms(PassSpec):
             ("singles", [S("a"), S("b"), R("c", "d")]),
             ("nested", [gx.Choice(S("a"), S("ab")), S("abc")]),
             ("builtin.rule", [S("x"), __import__("pest").Parser.BUILTIN["ASCII_HEX_DIGIT"], S("xy")]),
+            # what the default pipeline really hands to squash: inline_builtin has already replaced LETTER by its regex node
+            ("inlined.prop", [letter.expression, S("_")]),
+            ("inlined.prop.last", [S("ab"), R("0", "9"), letter.expression]),
             ("nested.optimized", [squash_choice(gx.Choice(S("p"), S("pq"), R("0", "1")), {}), S("y")]),
         ]
         for name, alts in cases:
             before = gx.Choice(*alts)
             after = squash_choice(before, {})
             if type(after).__name__ != "OptimizedChoice":
-                run.oblige(f"{name}.squashed", False)
+                # leaving the choice alone is always allowed for shapes squash does not know (an inlined property)
+                run.oblige(f"{name}.squashed", name.startswith("inlined.") and after is before)
+                continue
+            # the pattern is compiled lazily inside parse(): it must build and compile now (C07: parse() never raises)
+            try:
+                after.pattern  # noqa: B018
+                compiled = ""
+            except Exception as ex:  # noqa: BLE001
+                compiled = f"{type(ex).__name__}: {ex}"[:120]
+            run.oblige(f"{name}.compiles", not compiled, note=compiled)
+            if compiled:
                 continue
             pat = after.build_optimized_pattern()
             parsed = regexsem.parse(pat)
@@ -278,7 +291,7 @@ class SquashArms(PassSpec):
 
             for x in flat:
                 k = type(x).__name__
-                single = (k == "String" and len(x.value) == 1) or k == "Range" or k == "UnicodePropertyRule" or (k == "CIString" and len(x.value) == 1)
+                single = (k == "String" and len(x.value) == 1) or k == "Range" or k in ("UnicodePropertyRule", "RegexExpression") or (k == "CIString" and len(x.value) == 1)
                 if single:
                     run_items.append(x)
                 else:
@@ -296,11 +309,12 @@ class SquashArms(PassSpec):
                         break
                     i += 1
                 else:
-                    props = [x for x in ex[1] if type(x).__name__ == "UnicodePropertyRule"]
-                    chars = [x for x in ex[1] if type(x).__name__ != "UnicodePropertyRule"]
+                    props = [x for x in ex[1] if type(x).__name__ in ("UnicodePropertyRule", "RegexExpression")]
+                    chars = [x for x in ex[1] if type(x).__name__ not in ("UnicodePropertyRule", "RegexExpression")]
                     for pr in props:
-                        if i >= len(parts) or parts[i].kind != "prop" or parts[i].props != (pr.expression.pattern,):
-                            ok, why = False, f"alternative {i} is not the property {pr.name}"
+                        ptxt = pr.pattern if type(pr).__name__ == "RegexExpression" else pr.expression.pattern
+                        if i >= len(parts) or parts[i].kind != "prop" or parts[i].props != (ptxt,):
+                            ok, why = False, f"alternative {i} is not the property {ptxt}"
                             break
                         i += 1
                     if not ok:
@@ -373,6 +387,57 @@ class SkipRuleArms(PassSpec):
         }
         for name, rules in none_cases.items():
             run.oblige(f"no_skip.{name}", run_on(rules) is None)
+
+
+class LazyPatternsCompile(PassSpec):
+    """OptimizedChoice compiles its pattern lazily inside parse(); whatever the default pipeline builds from grammars
+    that put every kind of built-in / literal / range into choices must build and compile (else parse() raises)."""
+
+    target = "pest.grammar.expressions.choice.OptimizedChoice.pattern"
+    about = "pest.grammar.expressions.choice.build_optimized_pattern"
+    label = "C02.lazy_patterns_compile"
+
+    GRAMMARS = [
+        'a = { (LETTER | "_") ~ (LETTER | NUMBER | ASCII_DIGIT | "_" | "-")* }',
+        'a = { (HAN | HIRAGANA | "x" | "xy" | ^"z" | ^"zz" | \'0\'..\'9\')+ }',
+        'WHITESPACE = _{ " " | "\\t" | NEWLINE }\na = { (ASCII_ALPHA | ASCII_HEX_DIGIT | XID_START | "\\u{E9}")* ~ (NEWLINE | ANY) }',
+        'b = _{ "p" | UPPERCASE_LETTER }\na = { (b | "q" | \'r\'..\'s\')* }',
+    ]
+
+    def direct(self, run: Run) -> None:
+        from pest import Parser
+
+        n = 0
+        for gi, g in enumerate(self.GRAMMARS):
+            try:
+                p = Parser.from_grammar(g)
+            except Exception as ex:  # noqa: BLE001
+                run.oblige(f"g{gi}.builds", False, note=f"{type(ex).__name__}: {ex}"[:120])
+                continue
+            bad = []
+
+            def walk(e):
+                nonlocal n
+                if type(e).__name__ in ("OptimizedChoice", "OptimizedChoiceRepeat"):
+                    n += 1
+                    try:
+                        e.pattern  # noqa: B018
+                    except Exception as ex:  # noqa: BLE001
+                        bad.append(f"{type(ex).__name__}: {ex}"[:100])
+                for ch in e.children():
+                    walk(ch)
+
+            for r in p.rules.values():
+                walk(r.expression)
+            run.oblige(f"g{gi}.patterns_compile", not bad, note="; ".join(bad[:2]))
+            try:
+                src = p.generate()
+                compile(src, "<g>", "exec")
+                gen_err = ""
+            except Exception as ex:  # noqa: BLE001
+                gen_err = f"{type(ex).__name__}: {ex}"[:120]
+            run.oblige(f"g{gi}.generates", not gen_err, note=gen_err)
+        run.oblige("some_optimized_choices_seen", n >= 3, note=str(n))
 
 
 class PassCoverage(PassSpec):
@@ -451,7 +516,7 @@ def specs(tier):
     return [
         ops.SkipUntilSpec(), ops.RegexNodeSpec("RegexExpression"), ops.RegexNodeSpec("OptimizedChoice"),
         *templates.skipuntil_templates(), *templates.regex_node_templates(), *ops.bounded_repeat_specs(),
-        UnrollArms(), SkipArms(), InlineArms(), SquashArms(), SkipRuleArms(), PassCoverage(),
+        UnrollArms(), SkipArms(), InlineArms(), SquashArms(), SkipRuleArms(), LazyPatternsCompile(), PassCoverage(),
     ]
 
 
